@@ -185,6 +185,11 @@ def generate(rng, tier):
         out.append({'kind': 'setvalue', 'wave': w, 'value': v, 'value2': [dyadic(rng, 0, 16, 3) for _ in w], 'shift': [0.0, 0.5, 4.0][int(rng.integers(0, 3))],
                     'fr': [FR[int(x)] for x in sorted(rng.choice(len(FR), int(rng.integers(2, 6)), replace=False))],
                     'fill': [0.0, 1.5, [0.5, 2.0]][int(rng.integers(0, 3))], 'fill2': [0.0, 2.5][int(rng.integers(0, 2))], 'method': ['linear', 'linear', 'quadratic'][int(rng.integers(0, 3))]})
+    # refusals on a bad ARGUMENT (not on bad data): every `raise ValueError` of append/integrate/pad/_sampling/bin that no other stream reaches
+    for i, call in enumerate(BADARG):
+        for _ in range(2 if tier == 'quick' else 6):
+            w, v = _spec(rng, n=int(rng.integers(3, 9)))
+            out.append({'kind': 'badarg', 'wave': w, 'value': v, 'call': call, 'lo': w[0] - dyadic(rng, 1, 4, 2), 'hi': w[-1] + dyadic(rng, 1, 4, 2)})
     # storage dtype: integer-valued spectra (0/1 bandpasses, counts) stored as int64
     for c in out:
         if c.get('linear') is None and '_corpus' not in c and rng.integers(0, 5) == 0:
@@ -192,11 +197,30 @@ def generate(rng, tier):
             c['value'] = [float(int(v)) for v in c['value']]
     return out
 
+BADARG = ['append:ndarray', 'append:float', 'integrate:method', 'pad:mode', 'pad:sampling-left', 'pad:sampling-right', 'pad:sampling-list',
+          'bin:trapz-ends', 'bin:simps-ends', 'bin:method']
+
+def _badarg_call(s, c):
+    k, lo, hi = c['call'], c['lo'], c['hi']
+    cen = np.linspace(c['wave'][0], c['wave'][-1], 4)
+    if k == 'append:ndarray': return s.append(np.array([hi, hi + 1.0]))
+    if k == 'append:float': return s.append(hi)
+    if k == 'integrate:method': return s.integrate(method='romberg')
+    if k == 'pad:mode': return s.pad((lo, hi), mode='reflect')
+    if k == 'pad:sampling-left': return s.pad((lo, hi), sampling='left')
+    if k == 'pad:sampling-right': return s.pad((lo, hi), sampling='right')
+    if k == 'pad:sampling-list': return s.pad((lo, hi), sampling=[0.5, 0.25])
+    if k == 'bin:trapz-ends': return s.bin(cen, interp_method='trapz', ends='outside')
+    if k == 'bin:simps-ends': return s.bin(cen, interp_method='simps', ends='outside')
+    if k == 'bin:method': return s.bin(cen, interp_method='romberg')
+    raise KeyError(k)
+
 def _vals(c):
     v = np.array(c['value'])
     return v.astype(np.int64) if c.get('dtype') == 'int' else v
 
 def signature(c):
+    if c['kind'] == 'badarg': return 'badarg %s n=%d %s' % (c['call'], len(c['wave']), c['wave'][:2])
     if c['kind'] == 'history': return 'history%s%s n=%d %s %s' % (c.get('unit', ''), '' if 'hscale' not in c else '*%g' % c['hscale'], len(c['wave']), ','.join(o['k'] for o in c['ops']), c['wave'][:2])
     if c['kind'] == 'setvalue': return 'setvalue n=%d %s %s %s %s' % (len(c['wave']), c['fr'], c['shift'], c['method'], c['wave'][:2])
     if c['kind'] == 'unit': return 'unit %s>%s%s n=%d %s %s' % (c['unit'], c['req'], '*' if c['omit_unit'] else '', len(c['wave']), c['fr'], c['wave'][:2])
@@ -212,6 +236,7 @@ def nontrivial(c):
 
 def tags(c):
     t = [c['kind'], 'dtype:' + c.get('dtype', 'float')]
+    if c['kind'] == 'badarg': t.append('badarg:' + c['call'])
     if c['kind'] == 'history': t += sorted({'op:' + o['k'] for o in c['ops']}) + ['scale:%g' % c.get('hscale', 1.0), 'history-unit:' + c.get('unit', 'nm')] + (['append:other-unit'] if any(o.get('ounit') not in (None, c.get('unit', 'nm')) for o in c['ops']) else []) + (['long-history'] if len(c['ops']) > 32 else [])
     if c['kind'] == 'bin':
         t += ['bin:' + ('simps' if c['simps'] else 'trapz'), 'bin:' + c['ends'], 'bin:unit=' + c['unit'], 'bin:pp=%s' % c['pp'],
@@ -289,6 +314,15 @@ def _impl(c):
     with warnings.catch_warnings():
         warnings.simplefilter('ignore')
         k = c['kind']
+        if k == 'badarg':
+            s = R.Spectrum(np.array(c['wave']), _vals(c))
+            before = _state(s)
+            try:
+                r = _badarg_call(s, c)
+                res = {'returned': repr(type(r).__name__)}
+            except Exception as e:
+                res = {'exc': type(e).__name__, 'msg': str(e)[:120]}
+            return {'before': before, 'after': _state(s), 'res': res}
         if k == 'history':
             s = R.Spectrum(np.array(c['wave']), _vals(c), waveunit=c.get('unit', 'nm'))
             steps = []
@@ -449,7 +483,7 @@ def _op_req(p):
 
 def requests(c, io):
     k = c['kind']
-    if '_harness_exc' in io or 'guard' in io: return []
+    if '_harness_exc' in io or 'guard' in io or k == 'badarg': return []
     if k == 'history':
         out = []
         for st in io['steps']:
@@ -488,7 +522,7 @@ def _fl(ps): return [float(unq(p)) for p in ps]
 
 def compare(c, io, mo):
     k = c['kind']
-    if 'guard' in io: return None
+    if 'guard' in io or k == 'badarg': return None
     if k == 'history':
         live = [st for st in io['steps'] if not st.get('skipped')]
         for i, (st, m) in enumerate(zip(live, mo)):
@@ -561,6 +595,11 @@ def _is_block(small, big):
 def oracle(c, io):
     k = c['kind']
     if 'guard' in io: return f"{k} on a spectrum of {len(c['wave'])} samples did not finish within its time/memory budget ({io['guard']})"
+    if k == 'badarg':
+        # a call with an argument outside the documented set is refused with ValueError and leaves the spectrum as it was
+        if io['res'].get('exc') != 'ValueError': return f"{c['call']}: an argument outside the documented options is not refused with ValueError: {io['res']}"
+        if io['after'] != io['before']: return f"{c['call']}: the refused call changed the spectrum: {io['before']} -> {io['after']}"
+        return _wf(io['after'])
     if k == 'history':
         for i, st in enumerate(io['steps']):
             p, b, a = st['p'], st['before'], st['after']
